@@ -41,6 +41,31 @@ def inject(unit, scratch_repo: Path):
         for a in inj.get("anchor_items", []):
             kind, name = a.split(" ", 1)
             src.item(kind, name)
+        if inj.get("contract_attrs"):
+            # attribute-form function contracts (#[kani::requires/ensures/modifies]) placed on the real functions
+            txt = f.read_text()
+            edits = []
+            for ca in inj["contract_attrs"]:
+                it = src.fn(ca["function"])
+                edits.append((it.head_start, ca["text"].strip() + "\n"))
+            for pos, t in sorted(edits, reverse=True):
+                txt = txt[:pos] + t + txt[pos:]
+            f.write_text(txt)
+            src = Source(str(f))
+        if inj.get("prelude"):
+            # text placed right after the file's leading `use` items (e.g. a cfg(kani) macro_rules shadowing a logging macro)
+            last_use = None
+            for it in src.items:
+                if it.kind == "use" or (it.kind == "extern"):
+                    last_use = it
+                elif it.kind in ("other",) and last_use is None:
+                    continue
+                else:
+                    break
+            pos = last_use.end if last_use else 0
+            txt = f.read_text()
+            f.write_text(txt[:pos] + "\n// ---- injected by /verif (not part of the repository) ----\n" +
+                         (VERIF / inj["prelude"]).read_text() + "\n" + txt[pos:])
         side = (VERIF / inj["sidecar"]).read_text()
         with open(f, "a") as fh:
             fh.write("\n\n// ---- injected by /verif (not part of the repository) ----\n")
